@@ -59,6 +59,8 @@ VARIABLES
   snote,        \* Seq([File -> LineMap]) aligned with stash: attribution saved with a stash
   isnap,        \* ghost: [0..MaxCommit -> [File -> Seq(Line)]] work-tree content when INITIAL[b] was written
   blame,        \* [File -> LineMap]  git-ai blame of HEAD for files whose work tree copy equals HEAD
+  tnotes,       \* notes of the TWIN execution of the same behaviour (other mode / configuration / code path)
+  tblame,       \* blame of the twin
   l,            \* trace position
   viol,         \* trace mode: set of <<step, property clause>> violated in the current run
   drift,        \* trace mode: set of <<step, field>> where the mechanism operator disagreed
@@ -66,9 +68,9 @@ VARIABLES
   hist          \* gen mode: replay script (hidden by VIEW)
 
 gitvars == <<wt, idx, tree, par, ckind, nc, head, tip2, side, stash, truth, nu, der, dirty, ops>>
-aivars  == <<wl, ini, isnap, notes, snote, blame>>
+aivars  == <<wl, ini, isnap, notes, snote, blame, tnotes, tblame>>
 vars    == <<gitvars, aivars, l, viol, drift, taint, hist>>
-view    == <<gitvars, aivars, taint>>
+view    == <<gitvars, wl, ini, isnap, notes, snote, blame, taint>>
 
 -----------------------------------------------------------------------------
 (* Lines, contents, line maps *)
@@ -179,6 +181,8 @@ EmptyWL  == [ent |-> [f \in File |-> EmptyEnt]]
 WLsess(W) == UNION { W.ent[f].by : f \in File }
 WLai(W)   == WLsess(W) # {}
 NoNote   == [has |-> FALSE, files |-> NoMaps, prompts |-> {}, wf |-> TRUE]
+\* the base commit is made through git-ai as well: an empty note
+BaseNote == [has |-> TRUE, files |-> NoMaps, prompts |-> {}, wf |-> TRUE]
 HeadTree == IF head = 0 THEN AllEmpty ELSE tree[head]
 TreeOf(c) == IF c = 0 THEN AllEmpty ELSE tree[c]
 SessionsIn(maps) == { s \in Session : \E f \in File : \E i \in DOMAIN maps[f] : maps[f][i] = s }
@@ -352,6 +356,32 @@ C03_Notes ==
 C03_Blame ==
   \A f \in File : \A n \in DOMAIN blame[f] :
     (blame[f][n] # H /\ head # 0 /\ n \in DOMAIN tree[head][f]) => blame[f][n] \in Writers(tree[head][f][n][1])
+\* C12 / C13 / C15: the twin execution (other git configuration or start directory; git-hooks mode instead of
+\* the wrapper; full replay instead of the note-remapping shortcut) records the same authorship.
+\* Twin_Obs compares what blame and stats can observe of a note: the authors of the lines its commit added.
+ObsPart(N, c) == [f \in File |-> Trim([n \in 1..Len(tree[c][f]) |->
+                    IF tree[c][f][n] \notin LinesOf(TreeOf(par[c])[f]) THEN At(N[c].files[f], n) ELSE H])]
+Twin_Obs   == \A c \in 1..MaxCommit : Made(c) => (notes[c].has = tnotes[c].has /\ ObsPart(notes, c) = ObsPart(tnotes, c))
+Twin_Exact == \A c \in 1..MaxCommit : Made(c) =>
+                (notes[c].files = tnotes[c].files /\ notes[c].prompts = tnotes[c].prompts /\ notes[c].wf = tnotes[c].wf)
+Twin_Blame == blame = tblame
+\* equivalent notes: same files, sessions and line sets, and the same prompt records for the sessions they name
+Twin_Equiv == \A c \in 1..MaxCommit : Made(c) =>
+                /\ notes[c].has = tnotes[c].has /\ notes[c].files = tnotes[c].files /\ notes[c].wf = tnotes[c].wf
+                /\ SessionsIn(notes[c].files) \cap notes[c].prompts = SessionsIn(tnotes[c].files) \cap tnotes[c].prompts
+\* known difference (finding F5): the full replay lists, per file, every AI line of the file so far, the shortcut
+\* only the lines the original commit added.  This clause holds when the two notes differ by nothing else:
+\* every disagreement is an extra entry, for a line the commit did not add, naming a session that wrote it.
+Twin_UpToCumulative ==
+  \A c \in 1..MaxCommit : Made(c) =>
+    /\ notes[c].has = tnotes[c].has /\ notes[c].wf = tnotes[c].wf /\ notes[c].prompts = tnotes[c].prompts
+    /\ \A f \in File : \A n \in 1..Max({Len(notes[c].files[f]), Len(tnotes[c].files[f]), 0}) :
+         LET a == At(notes[c].files[f], n)
+             b == At(tnotes[c].files[f], n)
+         IN a # b => /\ n \in DOMAIN tree[c][f] /\ ~GitAdded(c, f, n)
+                     /\ (a = H \/ b = H)
+                     /\ (IF a = H THEN b ELSE a) \in Writers(tree[c][f][n][1])
+
 \* C05: structural well-formedness as projected (flags computed by the independent parser) + line bounds
 C05_WellFormed ==
   \A c \in 1..MaxCommit : (Made(c) /\ notes[c].has) =>
@@ -362,13 +392,19 @@ C05_WellFormed ==
 \* gen mode: the as-built design is required to satisfy a clause wherever no known deviation fired
 Clean(p) == taint # {} \/ p
 
-PropertyNames == {"C01_Exact", "C02_Carried", "C01_OnlyAdded", "C03_Notes", "C03_Blame", "C05_WellFormed"}
+PropertyNames == {"C01_Exact", "C02_Carried", "C01_OnlyAdded", "C03_Notes", "C03_Blame", "C05_WellFormed",
+                  "Twin_Obs", "Twin_Exact", "Twin_Blame", "Twin_UpToCumulative", "Twin_Equiv"}
 Holds(p) == CASE p = "C01_Exact" -> C01_Exact
               [] p = "C02_Carried" -> C02_Carried
               [] p = "C01_OnlyAdded" -> C01_OnlyAdded
               [] p = "C03_Notes" -> C03_Notes
               [] p = "C03_Blame" -> C03_Blame
               [] p = "C05_WellFormed" -> C05_WellFormed
+              [] p = "Twin_Obs" -> Twin_Obs
+              [] p = "Twin_Exact" -> Twin_Exact
+              [] p = "Twin_Blame" -> Twin_Blame
+              [] p = "Twin_UpToCumulative" -> Twin_UpToCumulative
+              [] p = "Twin_Equiv" -> Twin_Equiv
 
 -----------------------------------------------------------------------------
 (* Trace plumbing *)
@@ -407,6 +443,7 @@ AiAdopt(g, cwl, cini, cnotes, fired) ==
   /\ IF Gen
      THEN /\ wl' = cwl /\ ini' = cini /\ notes' = cnotes
           /\ blame' = BlameOf(cnotes, g.tree, g.par, g.head, g.wt)
+          /\ tnotes' = cnotes /\ tblame' = BlameOf(cnotes, g.tree, g.par, g.head, g.wt)
           /\ drift' = drift /\ taint' = taint \cup fired
      ELSE LET ownl == [b \in 0..MaxCommit |->
                            [ent |-> [f \in File |-> [Ev.obs.wl[b + 1].ent[f] EXCEPT !.by = SetOf(@)]]]]
@@ -414,6 +451,7 @@ AiAdopt(g, cwl, cini, cnotes, fired) ==
               onot == [c \in 1..MaxCommit |-> ObsNote(Ev.obs.notes[c])]
           IN /\ wl' = ownl /\ ini' = oini /\ notes' = onot
              /\ blame' = Ev.obs.blame
+             /\ tnotes' = [c \in 1..MaxCommit |-> ObsNote(Ev.twin.notes[c])] /\ tblame' = Ev.twin.blame
              /\ drift' = drift \cup (IF ownl # cwl THEN {<<l, "wl">>} ELSE {})
                                \cup (IF oini # cini THEN {<<l, "ini">>} ELSE {})
                                \cup (IF onot # cnotes THEN {<<l, "notes">>} ELSE {})
@@ -927,8 +965,9 @@ InitCommon ==
   /\ wl = [b \in 0..MaxCommit |-> EmptyWL]
   /\ ini = [b \in 0..MaxCommit |-> NoMaps]
   /\ isnap = [b \in 0..MaxCommit |-> AllEmpty]
-  /\ notes = [c \in 1..MaxCommit |-> NoNote]
-  /\ blame = NoMaps
+  /\ notes = [c \in 1..MaxCommit |-> IF InitKind = "base" /\ c = 1 THEN BaseNote ELSE NoNote]
+  /\ blame = NoMaps /\ tblame = NoMaps
+  /\ tnotes = [c \in 1..MaxCommit |-> IF InitKind = "base" /\ c = 1 THEN BaseNote ELSE NoNote]
   /\ l = 1 /\ viol = {} /\ drift = {} /\ taint = {} /\ hist = <<>>
 
 InitUnborn ==
@@ -987,8 +1026,9 @@ TrReset ==
   /\ wl' = [b \in 0..MaxCommit |-> EmptyWL]
   /\ ini' = [b \in 0..MaxCommit |-> NoMaps]
   /\ isnap' = [b \in 0..MaxCommit |-> AllEmpty]
-  /\ notes' = [c \in 1..MaxCommit |-> NoNote]
-  /\ blame' = NoMaps
+  /\ notes' = [c \in 1..MaxCommit |-> IF Ev.init = "base" /\ c = 1 THEN BaseNote ELSE NoNote]
+  /\ blame' = NoMaps /\ tblame' = NoMaps
+  /\ tnotes' = [c \in 1..MaxCommit |-> IF Ev.init = "base" /\ c = 1 THEN BaseNote ELSE NoNote]
   /\ viol' = {} /\ drift' = {} /\ taint' = {}
   /\ hist' = hist /\ l' = l + 1
 
